@@ -14,6 +14,7 @@ let () =
   match mode with
   | "c18" -> per_line M_c18.line
   | "c18s" -> per_line M_c18.sline
+  | "c10" -> per_line M_c10.line
   | "judge" -> Judge.main (Array.to_list (Array.sub Sys.argv 2 (Array.length Sys.argv - 2)))
   | "c17" -> per_line M_c17.line
   | "c17u" -> per_line M_c17.uline
